@@ -215,6 +215,38 @@ fn mode_pipeline(g: &mut SplitMix64, n: usize) {
     }
 }
 
+/// Finding F24 (Lean: Qmc.C01.field_threshold_witness): small energy units. `J = Gamma = 2^-56`, `h = 2^-57 != 0`:
+/// the documented Hamiltonian has longitudinal-field terms, the sampler (absolute test `|h| > f64::EPSILON`) has none.
+fn mode_fieldwit() {
+    let u = 2f64.powi(-56);
+    let m = Model { edges: vec![((0, 1), u)], gamma: u, h: u / 2.0, nvars: 2 };
+    let mut q = build(&m, 4, vec![true, true], RecRng::new(7));
+    let beta = 4.0 / u;
+    let mut maxb = 0usize;
+    let mut seen = 0usize;
+    let r = catch(|| {
+        for _ in 0..200 {
+            q.single_diagonal_step(beta);
+            for p in 0..q.get_cutoff() {
+                if let Some(op) = q.get_manager_ref().get_pth(p) {
+                    maxb = maxb.max(op.get_bond());
+                    seen += 1;
+                }
+            }
+        }
+    });
+    let want = m.edges.len() + 2 * m.nvars - 1;
+    let oracle = match r {
+        Err(p) => Err(format!("single_diagonal_step panicked: {}", p)),
+        Ok(()) if maxb == want => Ok(()),
+        Ok(()) => Err(format!(
+            "h = 2^-57 != 0, beta*h = 2, but no longitudinal-field operator is ever inserted in 200 sweeps ({} operators seen, largest bond index {}, the documented Hamiltonian has bond types 0..={}) [F24: fields with |h| <= f64::EPSILON are dropped]",
+            seen, maxb, want
+        )),
+    };
+    emit(true, &format!("fieldwit {}", show_model(&m)), &format!("{}", maxb), Some(oracle));
+}
+
 fn main() {
     quiet_panics();
     let a = args();
@@ -225,6 +257,7 @@ fn main() {
         "energy" => mode_energy(&mut g, 100 * k),
         "refresh" => mode_refresh(&mut g, 200 * k),
         "pipeline" => mode_pipeline(&mut g, 60 * k),
+        "fieldwit" => mode_fieldwit(),
         _ => {
             mode_ham(&mut g, 150 * k);
             mode_energy(&mut g, 100 * k);
